@@ -576,9 +576,13 @@ def check(prop, tier, seed):
             try:
                 build_harness()
             except BuildFailure as e:
-                path = write_replay(prop, seed, [], None, None,
-                                    [e.what, "nothing can be shown to hold for a tree that does not build",
-                                     e.log[-6000:]], name="build_failure")
+                notes = [e.what, "nothing can be shown to hold for a tree that does not build"]
+                if "verif_hooks.rs" in e.log and "rust/verif_hooks.rs" in e.log:
+                    notes.append("NOTE: the first errors are in rust/verif_hooks.rs, the feature-gated hook file that "
+                                 "re-exports crate-private items for this harness (MANIFEST.hooks): an item it names was "
+                                 "renamed, moved or changed signature in the tree under test; carry that change into the "
+                                 "hook file (it contains no logic of its own) and re-run")
+                path = write_replay(prop, seed, [], None, None, notes + [e.log[-6000:]], name="build_failure")
                 violations.append((path, "no-failing-input-found"))
                 raise
             gen_notes = cfg.regenerate(HARNESS_BIN, LEAN_DIR, REPO) if cfg.regenerate else []
